@@ -441,6 +441,11 @@ func genSession(r *rand.Rand, id int, lvl string) *LSession {
 		s.Chunks = append(s.Chunks, LChunk{Dt: 0, Bytes: hx.B{0xFA}})
 	}
 	s.Chunks = append(s.Chunks, chunkUp(r, stream)...)
+	if r.Intn(10) == 0 && len(s.Chunks) > 0 {
+		// days of silence: the time stamps are int32 milliseconds, everything below 2^31 is in the domain (sums stay below 2^31)
+		s.Chunks[r.Intn(len(s.Chunks))].Dt = 1<<30 + int32(r.Intn(1<<29))
+		feat["huge_dt"] = true
+	}
 	for f := range feat {
 		s.Feat = append(s.Feat, f)
 	}
